@@ -25,7 +25,7 @@ CHECKS.update({
     "C05": ("exploration",
             "bounded-exhaustive lattice (family x parameter grid x call mode x argument kind x point grid) on the real "
             "code against mpmath closed forms",
-            "All 10 families (7 shipped + 3 ScipyDistribution subclasses) over a multi-decade parameter grid; every "
+            "All 11 families (7 shipped + 4 ScipyDistribution subclasses, one with two shape parameters) over a multi-decade parameter grid; every "
             "method, every call mode incl. every single-parameter override, every argument kind; judged against the "
             "documented closed forms in 40-digit mpmath (value, monotonicity, support, both round trips, pdf = cdf "
             "difference, explicit == constructed to 2e-15).",
@@ -121,7 +121,7 @@ CHECKS.update({
     "C18": ("fault_enumeration",
             "exhaustive fault enumeration: every malformation class x every position x n_dim 1..4 x every carrier family, "
             "and all injector pairs for n_dim <= 3, each against its passing control, on the real constructors/fit/contours",
-            "11 description injectors, 6 fit-call injectors and 30 further malformations (HDC grids, non-finite points, 3-D "
+            "12 description injectors, 11 fit-call injectors (incl. falsy non-None fit descriptions) and 30 further malformations (HDC grids, non-finite points, 3-D "
             "models for 2-D contours, non-models, slicer options/reference keywords, weight keywords, fit methods): the call "
             "at which the malformed value is supplied must raise; the control must construct, fit and evaluate.",
             "any Exception type counts as rejection", "DESIGN.md §4 C18"),
@@ -131,7 +131,7 @@ CHECKS.update({
     "C07": ("exploration",
             "bounded-exhaustive lattice (family/structure x n x random_state kind x seed triple) on the real samplers; "
             "distribution-free DKW/Hoeffding bands at error probability 1e-12 per comparison",
-            "Univariate: 10 families x 3 parameter points x n up to 1e5 (1e6 thorough); joint: 2-D both structures x family "
+            "Univariate: 11 families x 3 parameter points x n up to 1e5 (1e6 thorough); joint: 2-D both structures x family "
             "pairs, 3-D all 6 structures x 3 triples incl. von Mises and scalar-constant leaves: size/shape, reproducibility by "
             "int seed and Generator, different seeds differ, each Rosenblatt component uniform (DKW), pairs independent "
             "(3x3 Hoeffding).",
@@ -168,7 +168,7 @@ CHECKS.update({
             "bounded-exhaustive lattice (family x regular parameter grid x n x data seed x start x scale factor) on the real "
             "MLE fits; likelihood and equivariance oracle",
             "LL(fit) >= LL(start), LL(fit) >= LL(generating), admissible parameters, scale equivariance (parameters within 1e-3 "
-            "or equal attained likelihood after mapping back) for 9 families incl. fixed/free Weibull location.",
+            "or equal attained likelihood after mapping back) for 10 families incl. fixed/free Weibull location (also negative), one parameter fixed at / away from its generating value with a re-fit from a polished start.",
             "own pdf for the likelihood (C05); data sets are a fixed finite family", "DESIGN.md §4 C12"),
     "C16": ("exploration",
             "bounded-exhaustive lattice (transform grid; models x quantile points; conditioning quantile x n x seed; IFORM "
